@@ -40,12 +40,18 @@ REAL_VS_STUB = {
              "minimum-image implementation)"],
 }
 TIERS = {
-    "quick": {"runs": 30000, "budget_s": 50, "chunk": 200, "det_pairs": 64, "fresh": 8},
-    "thorough": {"runs": 600000, "budget_s": 900, "chunk": 500, "det_pairs": 512, "fresh": 32},
+    "quick": {"runs": 46384, "budget_s": 50, "chunk": 250, "det_pairs": 64, "fresh": 8},
+    "thorough": {"runs": 900000, "budget_s": 900, "chunk": 500, "det_pairs": 512, "fresh": 32},
 }
+
+LATTICE_FRAMES = {"quick": 3, "thorough": 4}
 
 
 def generate(streams: Streams, tier: str, index: int) -> dict:
+    nf = LATTICE_FRAMES[tier]
+    if index < world.lattice_size(nf):
+        # exhaustive part: every history of the small 1D lattice space, every configuration
+        return {"history": world.lattice_history(index, nf), "configs": list(world.LATTICE_CONFIGS)}
     rng = streams["workload"]
     small = rng.random() < 0.25
     hist = world.random_history(rng, allow_overlap=False, small_motion=small,
